@@ -43,7 +43,7 @@ EnvelopeEvOK(e) ==
   LET env == [tag |-> e.ti.tag, arrLen |-> e.ti.arrLen, wf |-> e.ti.wf, sigLen |-> e.sigLen, trail |-> e.ti.trail,
               payloadMap |-> e.payloadMap] IN
   /\ ~e.panicked
-  /\ (e.dec1 \/ e.dec2 => EnvelopeOK(env))
+  /\ ((e.dec1 \/ e.dec2) /\ ~e.payloadTag => EnvelopeOK(env))       \* (a tag before the claims map is left open)
   /\ e.dec1 = e.dec2                       \* both entry points agree
   /\ (e.dec1 => e.claims)                  \* success attaches claims
   /\ (e.kind = "canonical" => e.dec1)      \* (anti-vacuity: the canonical envelope is evidence)
